@@ -396,6 +396,12 @@ def wrap_shapely(method):
 
 def force_2d(geojson: Dict[str, Any]) -> Dict[str, Any]:
     assert "type" in geojson
+    if "geometries" in geojson:
+        # GeometryCollection has member geometries instead of coordinates
+        return {
+            "type": geojson["type"],
+            "geometries": [force_2d(g) for g in geojson["geometries"]],
+        }
     assert "coordinates" in geojson
 
     def is_scalar(x):
